@@ -39,7 +39,7 @@ func init() {
 			}
 			return []runner.Phase{
 				{Name: "iterations", Variant: "race", Cases: n, Run: c15case, CaseTimeout: 120 * time.Second,
-					Required: []string{"multi_page_iterations", "empty_pages", "fetch_errors", "manual_paging", "consumer_scan", "consumer_scanner", "consumer_mapscan", "consumer_slicemap", "prepared", "unprepared", "skipmeta"}},
+					Required: []string{"multi_page_iterations", "empty_pages", "fetch_errors", "manual_paging", "manual_paging_from_empty_state", "consumer_scan", "consumer_scanner", "consumer_mapscan", "consumer_slicemap", "prepared", "unprepared", "skipmeta"}},
 			}
 		},
 	})
@@ -256,10 +256,20 @@ func c15case(c *runner.Ctx, i int) {
 		if manual {
 			c.Add("manual_paging", 1)
 			start := 1 + r.Intn(np-1)
+			if r.Intn(4) == 0 {
+				// a walk through the pages by hand starts with an empty state (e.g. decoded from an empty request
+				// parameter): that is the first page, asked for without any paging state
+				start = 0
+				c.Add("manual_paging_from_empty_state", 1)
+			}
 			if set.errAt == start {
 				set.errAt = -1
 			}
-			q.PageState(c15state(set.id, start))
+			if start == 0 {
+				q.PageState([]byte{})
+			} else {
+				q.PageState(c15state(set.id, start))
+			}
 			it := q.Iter()
 			var id int32
 			var pad string
